@@ -202,3 +202,145 @@ Proof.
   rewrite (IH Hr'), andb_true_r. unfold term_ok. cbn [t_ws t_name ws_ok forallb is_fws N.eqb Pos.eqb orb andb nonempty].
   rewrite (ident_ok_same _ Hx). reflexivity.
 Qed.
+
+(* ---- one relation: text, well-formedness ---- *)
+Lemma vop_text_of c : vop_text (vop_of c) = vc_print c.
+Proof. destruct c; reflexivity. Qed.
+
+Lemma arch_terms_text a : forallb arch_ok a = true -> map RelLossyP.term_text (map RelLossyP.arch_term a) = a.
+Proof.
+  induction a as [|x r IH]; [reflexivity|]. cbn [forallb]. intros H. apply andb_true_iff in H. destruct H as [Hx Hr].
+  cbn [map]. rewrite (IH Hr). destruct (RelLossyP.arch_term_text x Hx) as [-> _]. reflexivity.
+Qed.
+Lemma prof_terms_text g : map RelLossyP.term_text (map RelLossyP.prof_term g) = map profile_print g.
+Proof. induction g as [|p r IH]; [reflexivity|]. cbn [map]. rewrite IH. destruct p; reflexivity. Qed.
+
+Lemma rel_text_of bp r : relation_okb r = true ->
+  rel_text (rel_of bp r) = print_relation dv_print r ++ (if bp then [32%N] else []).
+Proof.
+  destruct r as [n q a v ps]. unfold relation_okb. cbn [RelLossy.r_name r_archqual RelLossy.r_archs r_version r_profiles]. intros H.
+  apply andb_true_iff in H. destruct H as [H _]. apply andb_true_iff in H. destruct H as [_ Ha].
+  unfold rel_text, rel_of, print_relation.
+  cbn [RelGrammar.r_name r_qual r_ver RelGrammar.r_archs r_profs r_trail RelLossy.r_name r_archqual RelLossy.r_archs r_version r_profiles].
+  rewrite <- !app_assoc. f_equal. f_equal; [destruct q; reflexivity|]. f_equal.
+  { destruct v as [[c x]|]; [|reflexivity]. cbn [option_map opt_text fst snd]. unfold vclause_text, vbody_text.
+    rewrite vtext_of. unfold vclause_of. destruct (split_on 58%N (vbody x)); cbn [v_ws0 v_ws1 v_ws2 v_ws3 v_op];
+      rewrite vop_text_of; cbn [app]; rewrite <- ?app_assoc; reflexivity. }
+  f_equal.
+  { destruct a as [l|]; [|reflexivity]. cbn [option_map opt_text]. unfold arch_text. rewrite group_text_of, arch_terms_text by exact Ha.
+    reflexivity. }
+  f_equal. induction ps as [|g r IH]; [reflexivity|]. cbn [map flat_map]. rewrite IH. f_equal.
+  unfold prof_text. rewrite group_text_of, prof_terms_text. reflexivity.
+Qed.
+
+Lemma arch_terms_ident a : forallb arch_ok a = true -> Forall (fun t => RelLossy.ident_ok (snd t) = true) (map RelLossyP.arch_term a).
+Proof.
+  induction a as [|x r IH]; [constructor|]. cbn [forallb]. intros H. apply andb_true_iff in H. destruct H as [Hx Hr].
+  cbn [map]. constructor; [apply (RelLossyP.arch_term_text x Hx)|apply IH, Hr].
+Qed.
+Lemma prof_terms_ident g : forallb profile_ok g = true -> Forall (fun t => RelLossy.ident_ok (snd t) = true) (map RelLossyP.prof_term g).
+Proof.
+  induction g as [|p r IH]; [constructor|]. cbn [forallb]. intros H. apply andb_true_iff in H. destruct H as [Hp Hr].
+  cbn [map]. constructor; [destruct p; exact Hp|apply IH, Hr].
+Qed.
+
+Lemma wf_rel_of bp r : relation_policy_ok r = true -> wf_rel (rel_of bp r) = true.
+Proof.
+  destruct r as [n q a v ps]. unfold relation_policy_ok, relation_okb, relation_pieces_ok.
+  cbn [RelLossy.r_name r_archqual RelLossy.r_archs r_version r_profiles]. intros H.
+  apply andb_true_iff in H. destruct H as [H Hpn]. apply andb_true_iff in H. destruct H as [H Han].
+  apply andb_true_iff in H. destruct H as [H Hvp]. apply andb_true_iff in H. destruct H as [H Hp].
+  apply andb_true_iff in H. destruct H as [H Ha]. apply andb_true_iff in H. destruct H as [H Hv].
+  apply andb_true_iff in H. destruct H as [Hn Hq].
+  unfold wf_rel, rel_of.
+  cbn [RelGrammar.r_name r_qual r_ver RelGrammar.r_archs r_profs r_trail RelLossy.r_name r_archqual RelLossy.r_archs r_version r_profiles].
+  rewrite (ident_ok_same _ Hn). cbn [andb].
+  assert (E1 : opt_ok qual_ok (option_map (mk_qual [] []) q) = true).
+  { destruct q as [s|]; [|reflexivity]. cbn [option_map opt_ok]. unfold qual_ok. cbn [q_ws0 q_ws1 q_name ws_ok forallb andb].
+    apply ident_ok_same, Hq. }
+  assert (E2 : opt_ok vclause_ok (option_map (fun cv => vclause_of (fst cv) (snd cv)) v) = true).
+  { destruct v as [[c x]|]; [|reflexivity]. cbn [option_map opt_ok fst snd]. apply vclause_ok_of; assumption. }
+  assert (E3 : opt_ok group_ok (option_map (fun a0 => group_of (map RelLossyP.arch_term a0)) a) = true).
+  { destruct a as [l|]; [|reflexivity]. cbn [option_map opt_ok]. apply group_ok_of; [|apply arch_terms_ident, Ha].
+    destruct l; [discriminate|discriminate]. }
+  assert (E4 : forallb group_ok (map (fun g => group_of (map RelLossyP.prof_term g)) ps) = true).
+  { clear -Hp Hpn. induction ps as [|g r IH]; [reflexivity|]. cbn [forallb map] in *.
+    apply andb_true_iff in Hp, Hpn. destruct Hp as [Hg Hr], Hpn as [Hgn Hrn]. rewrite (IH Hr Hrn), andb_true_r.
+    apply group_ok_of; [destruct g; [discriminate|discriminate]|apply prof_terms_ident, Hg]. }
+  rewrite E1, E2, E3, E4. destruct bp; reflexivity.
+Qed.
+
+(* ---- one relation: the conversion back on the tree the parser builds ---- *)
+Lemma conv_version_tree rr last : wf_rel rr = true ->
+  conv_version (rel_tree rr last) =
+  match r_ver rr with
+  | None => Ok None
+  | Some vcl => match vc_of_str (vop_text (v_op vcl)) with
+                | None => Panic 11%N
+                | Some o => match dv_parse (vtext vcl) with Some x => Ok (Some (o, x)) | None => Panic 12%N end
+                end
+  end.
+Proof.
+  intros H. unfold wf_rel in H. andb_split H.
+  unfold conv_version. rewrite fn_rel by discriminate. cbn [rkind_eqb rkind_code N.eqb Pos.eqb].
+  destruct (r_ver rr) as [v|]; cbn [option_map]; [|reflexivity].
+  cbn [opt_ok] in W2. destruct (vclause_ok_inv v W2) as (_ & _ & _ & _ & _ & W4 & _ & _).
+  cbn [vnode children first_node_of_kind]. rewrite first_node_app, fn_ws.
+  cbn [app first_node_of_kind rkind_eqb rkind_code N.eqb Pos.eqb].
+  assert (E : version_text_of
+      (Tok L_PARENS [40%N] :: ws_elems (v_ws1 v) ++ Node CONSTRAINT (elems (vop_toks (v_op v)))
+        :: ws_elems (v_ws2 v) ++ elems (vtext_toks v) ++ ws_elems (v_ws3 v) ++ [Tok R_PARENS [41%N]]) = vtext v).
+  { change (version_text_of (Tok L_PARENS [40%N] :: ?x)) with (version_text_of x).
+    rewrite version_text_app, version_text_ws. cbn [app].
+    change (version_text_of (Node CONSTRAINT ?l :: ?x)) with (version_text_of x).
+    rewrite !version_text_app, !version_text_ws, version_text_vtoks. cbn [app]. rewrite app_nil_r. reflexivity. }
+  rewrite E.
+  destruct (vtext v) as [|c0 w0] eqn:Ev; [destruct (vtext_nonempty v W4 Ev)|]. rewrite <- Ev.
+  replace (text (Node CONSTRAINT (elems (vop_toks (v_op v))))) with (vop_text (v_op v)) by (destruct (v_op v); reflexivity).
+  reflexivity.
+Qed.
+
+Lemma vc_of_vop c : vc_of_str (vop_text (vop_of c)) = Some c.
+Proof. destruct c; reflexivity. Qed.
+
+Lemma term_arch_mk ws t : arch_acc_text (term_arch (mk_term ws (fst t) (snd t))) = RelLossyP.term_text t.
+Proof. reflexivity. Qed.
+Lemma terms_arch l : map (fun t => arch_acc_text (term_arch t)) (mk_terms l) = map RelLossyP.term_text l.
+Proof.
+  destruct l as [|t r]; [reflexivity|]. cbn [mk_terms map]. rewrite term_arch_mk, map_map. f_equal.
+Qed.
+Lemma terms_profile g : map lprofile_of (map term_profile (mk_terms (map RelLossyP.prof_term g))) = g.
+Proof.
+  destruct g as [|p r]; [reflexivity|]. cbn [map mk_terms]. f_equal; [destruct p; reflexivity|].
+  rewrite !map_map. rewrite <- (map_id r) at 2. apply map_ext. intros x. destruct x; reflexivity.
+Qed.
+
+Theorem to_lossy_rel_tree bp last r : relation_policy_ok r = true -> to_lossy (rel_tree (rel_of bp r) last) = Ok r.
+Proof.
+  intros Hpol. pose proof (wf_rel_of bp r Hpol) as Hwf.
+  unfold relation_policy_ok in Hpol. apply andb_true_iff in Hpol. destruct Hpol as [Hpol _].
+  apply andb_true_iff in Hpol. destruct Hpol as [Hpol _]. apply andb_true_iff in Hpol. destruct Hpol as [Hok _].
+  destruct r as [n q a v ps]. unfold relation_okb in Hok. cbn [RelLossy.r_name r_archqual RelLossy.r_archs r_version r_profiles] in Hok.
+  apply andb_true_iff in Hok. destruct Hok as [Hok _]. apply andb_true_iff in Hok. destruct Hok as [Hok Ha].
+  apply andb_true_iff in Hok. destruct Hok as [_ Hv].
+  unfold to_lossy. rewrite acc_name, (conv_version_tree _ last Hwf), acc_qual, acc_archs, (acc_profs _ last Hwf).
+  unfold rel_of at 1 2 3 4 5. cbn [RelGrammar.r_name r_qual r_ver RelGrammar.r_archs r_profs RelLossy.r_name r_archqual RelLossy.r_archs r_version r_profiles].
+  assert (Ev : match option_map (fun cv => vclause_of (fst cv) (snd cv)) v with
+               | None => Ok None
+               | Some vcl => match vc_of_str (vop_text (v_op vcl)) with
+                             | None => Panic 11%N
+                             | Some o => match dv_parse (vtext vcl) with Some x => Ok (Some (o, x)) | None => Panic 12%N end
+                             end
+               end = Ok v).
+  { destruct v as [[c x]|]; [|reflexivity]. cbn [option_map fst snd]. rewrite vtext_of.
+    replace (v_op (vclause_of c x)) with (vop_of c) by (unfold vclause_of; destruct (split_on 58%N (vbody x)); reflexivity).
+    rewrite vc_of_vop. destruct (RelLossyP.dv_canonical_ok x Hv) as [_ ->]. reflexivity. }
+  rewrite Ev. f_equal.
+  assert (Eq : option_map q_name (option_map (mk_qual [] []) q) = q) by (destruct q; reflexivity).
+  assert (Ea : option_map (fun g => map (fun t => arch_acc_text (term_arch t)) (g_terms g))
+                 (option_map (fun a0 => group_of (map RelLossyP.arch_term a0)) a) = a).
+  { destruct a as [l|]; [|reflexivity]. cbn [option_map group_of g_terms]. rewrite terms_arch, arch_terms_text by exact Ha. reflexivity. }
+  assert (Ep : map (map lprofile_of) (map (fun g => map term_profile (g_terms g)) (map (fun g => group_of (map RelLossyP.prof_term g)) ps)) = ps).
+  { rewrite !map_map. rewrite <- (map_id ps) at 2. apply map_ext. intros g. cbn [group_of g_terms]. apply terms_profile. }
+  rewrite Eq, Ea, Ep. reflexivity.
+Qed.
